@@ -914,7 +914,7 @@ class Standard(Output):
                     elevs = np.array([loc.elev for loc in data.locations])
                     loc_ids = np.array([loc.id for loc in data.locations])
                     alabels["lat"] = lats
-                    alabels["lon"] = lats
+                    alabels["lon"] = lons
                     alabels["elev"] = elevs
                     alabels["location"] = loc_ids
                 self._add_annotation(x, y[:, id], alabels, color=opts['color'], alpha=alpha)
@@ -1024,7 +1024,7 @@ class Standard(Output):
 
         alabels = dict()
         alabels["lat"] = lats
-        alabels["lon"] = lats
+        alabels["lon"] = lons
         alabels["elev"] = elevs
         alabels["location"] = ids
         alabels["score"] = contrib
@@ -1296,7 +1296,7 @@ class Standard(Output):
 
             alabels = dict()
             alabels["lat"] = lats[is_valid]
-            alabels["lon"] = lats[is_valid]
+            alabels["lon"] = lons[is_valid]
             alabels["elev"] = elevs[is_valid]
             alabels["location"] = ids[is_valid]
             alabels["score"] = y[is_valid, f]
@@ -1420,7 +1420,7 @@ class ObsFcst(Output):
                 elevs = np.array([loc.elev for loc in data.locations])
                 loc_ids = np.array([loc.id for loc in data.locations])
                 alabels["lat"] = lats
-                alabels["lon"] = lats
+                alabels["lon"] = lons
                 alabels["elev"] = elevs
                 alabels["location"] = loc_ids
 
